@@ -48,6 +48,20 @@ LevelCalls ==
 GenNextL == (Modify \/ LevelCalls) /\ hist' = Append(hist, Call(obs'))
 GenSpecL == GenInit /\ [][GenNextL]_<<vars, hist>>
 Stops0 == {0, 2}
+\* deep uneven forests: below one root two subtrees <<a[t1, t2], a[t3]>>, every ti a tree of <= 3 nodes (the
+\* forest is made by one producing call); every traversal order and the level walks are then started at EVERY
+\* node -- nested ones, last ones of their list, with and without children
+Shapes3 == {A0, AA(<<A0>>), AA(<<A0, A0>>), AA(<<AA(<<A0>>)>>)}
+DeepForests == {<<AA(<<t[1], t[2]>>), AA(<<t[3]>>)>> : t \in [1..3 -> Shapes3]}
+DeepCalls ==
+  \/ live = {} /\ New(<<"a", 0>>)
+  \/ live = {1} /\ \E t \in DeepForests : Parse(1, t, "replace")
+  \/ /\ Cardinality(live) > 1
+     /\ \/ \E n \in live, ord \in Orders4, sel \in {"all", "leaf"} : TravX(n, ord, sel, 0)
+        \/ \E n \in live : TravX(n, "level", "all", 2)
+        \/ \E n \in live, up \in 1..3 : SameQ(n, up) \/ SubQ(n, up)
+GenNextD == DeepCalls /\ hist' = Append(hist, Call(obs'))
+GenSpecD == GenInit /\ [][GenNextD]_<<vars, hist>>
 \* only the states of the base graph are expanded (the calls of TreeUse are generated from each of them)
 BaseLabels == \A n \in live : <<name[n], val[n]>> \in Kinds
 EmitU == (obs'.a \in NewActs) => PrintT(<<"BEHAV", ToJson(Append(hist, obs'))>>)
